@@ -74,7 +74,8 @@ func c07Pool(thorough bool) []c07Def {
 			/*13*/ c07Def{name: "mkg", src: "let mkg (x:int) =\n  {V=x; Vs=[x]}\n", deps: []int{10}, owns: exact("mkg")},
 			/*14*/ c07Def{name: "getv", src: "let getv (g:G<int>) =\n  g.V\n", deps: []int{10}, owns: exact("getv")},
 			// binders that reuse top-level names, and top-level variables whose initialiser opens scopes
-			/*16*/ c07Def{name: "tvm", src: "let tvm = match (S \"q\") with\n          | S gv -> gv\n          | _ -> \"n\"\n", deps: []int{1}, owns: exact("tvm")},
+			/*16*/
+			c07Def{name: "tvm", src: "let tvm = match (S \"q\") with\n          | S gv -> gv\n          | _ -> \"n\"\n", deps: []int{1}, owns: exact("tvm")},
 			/*17*/ c07Def{name: "usegv", src: "let usegv () =\n  (gv, [gv])\n", deps: []int{3}, owns: exact("usegv")},
 			/*18*/ c07Def{name: "tvl", src: "let tvl = fun (gv:string) (idf:string) -> gv + idf\n", owns: exact("tvl")},
 			/*19*/ c07Def{name: "shadow1", src: "let shadow1 (idf:int) (mk:int) =\n  let gv = idf + mk\n  gv * 2\n", owns: exact("shadow1")},
